@@ -31,21 +31,23 @@ TStates(T) == 0 .. (NStates(T) - 1)
 TExpected(T, q) == {pr[1] : pr \in Range(T.states[q + 1].sorted)}
 TAllReduces(T, q) == UNION {TReduces(T, q, t) : t \in Terms(T)}
 
-\* predecessors of q by any transition
-TPreds(T, q) == {r \in TStates(T) : \E X \in Symbols(T) : TTrans(T, r, X) = q}
+\* predecessor map of a table, computed once: function state -> set of states with a
+\* transition into it
+PredMap(T) ==
+  LET tr == {<<r, TTrans(T, r, X)>> : r \in TStates(T), X \in Symbols(T)}
+  IN [q \in TStates(T) |-> {p[1] : p \in {x \in tr : x[2] = q}}]
 
-\* the set of states reachable by walking back n transitions from q, together
+\* the set of states reachable by walking back n transitions from qs, together
 \* with the check that the states popped spell rhs(p)[1..n]
-RECURSIVE BackRoots(_, _, _, _)
-BackRoots(T, qs, p, n) ==
-  IF n = 0 THEN qs
-  ELSE BackRoots(T, UNION {TPreds(T, q) : q \in qs}, p, n - 1)
+RECURSIVE BackRoots(_, _, _)
+BackRoots(pm, qs, n) ==
+  IF n = 0 THEN qs ELSE BackRoots(pm, UNION {pm[q] : q \in qs}, n - 1)
 
-RECURSIVE SpellsOK(_, _, _, _)
-SpellsOK(T, qs, p, n) ==
+RECURSIVE SpellsOK(_, _, _, _, _)
+SpellsOK(T, pm, qs, p, n) ==
   \/ n = 0
   \/ /\ \A q \in qs : TState(T, q).sym = Rhs(T, p)[n]
-     /\ SpellsOK(T, UNION {TPreds(T, q) : q \in qs}, p, n - 1)
+     /\ SpellsOK(T, pm, UNION {pm[q] : q \in qs}, p, n - 1)
 
 \* A cycle of EMPTY reductions under one lookahead: the LR parser reduces forever
 \* without consuming input.  Cannot exist in a table whose cells were never resolved
@@ -64,6 +66,7 @@ EpsLoops(T) == {qt \in (0 .. (NStates(T) - 1)) \X Terms(T) : EpsWalk(T, qt[1], q
 \* The set of named defects of a table (empty = well-formed).
 WFDefects(T, C) ==
   LET Qs == TStates(T)
+      pm == PredMap(T)
       shifts == UNION {{<<"shift_symbol", q, t>> :
                            t \in {u \in Terms(T) : TShift(T, q, u) >= 0 /\
                                                     TState(T, TShift(T, q, u)).sym # u}}
@@ -78,8 +81,8 @@ WFDefects(T, C) ==
                          pn \in {x \in TAllReduces(T, q) :
                                    ~ /\ x[2] <= RhsLen(T, x[1])
                                      /\ NullableFrom(T, C.N, x[1], x[2])
-                                     /\ SpellsOK(T, {q}, x[1], x[2])
-                                     /\ \A r \in BackRoots(T, {q}, x[1], x[2]) :
+                                     /\ SpellsOK(T, pm, {q}, x[1], x[2])
+                                     /\ \A r \in BackRoots(pm, {q}, x[2]) :
                                            TGoto(T, r, Lhs(T, x[1])) >= 0}}
                      : q \in Qs}
   IN shifts \cup gotos \cup expd \cup reds
